@@ -44,7 +44,10 @@ def main():
       work = tempfile.mkdtemp(prefix='mmv-work-', dir='/tmp')
       env = dict(os.environ, MMV_REPO_DIR=tree, MMV_WORK_DIR=work, VERIF_SEED=a.seed)
       checks = {}
-      for p in [prop] + [x for x in a.also.split(',') if x]:
+      # meta['judged_by']: the properties whose checks own the behaviour the change breaks, when that is not (only)
+      # the property the seeding agent was given (e.g. a change seeded for C11 that mutates the parameter object is a
+      # C10 / C17 matter)
+      for p in [prop] + [x for x in meta.get('judged_by', []) if x != prop] + [x for x in a.also.split(',') if x]:
         t0 = time.time()
         c = run([os.path.join(HERE, 'check'), p, '--tier', a.tier, '--no-evidence'], env=env, cwd=HERE)
         lines = [l for l in c.stdout.splitlines() if 'conda' not in l.lower()]
